@@ -85,7 +85,7 @@ fn cfg() -> WorldCfg {
     c
 }
 
-fn make_invoice(x: u8, amt_msat: u64, now: u64) -> Invoice {
+pub fn make_invoice(x: u8, amt_msat: u64, now: u64) -> Invoice {
     let payment_hash = Sha256Hash::hash(&[x; 32]);
     let private_key = SecretKey::from_slice(&[42; 32]).unwrap();
     Invoice::Bolt11(
